@@ -76,7 +76,38 @@ type implResult struct {
 	panic string
 }
 
+// inFlight records what every goroutine is currently feeding to Tokenize, so
+// that a call that never returns (a non-terminating scanner loop — totality is
+// property C13's business) stops the run with a diagnosis instead of hanging it
+// while memory fills up. This is a resource backstop, never a verdict.
+var inFlight sync.Map // *flight -> struct{}
+
+type flight struct {
+	src   string
+	since time.Time
+}
+
+const stallLimit = 5 * time.Minute
+
+func watchdog() {
+	for {
+		time.Sleep(5 * time.Second)
+		inFlight.Range(func(k, _ interface{}) bool {
+			f := k.(*flight)
+			if time.Since(f.since) > stallLimit {
+				fmt.Fprintf(os.Stderr, "HARNESS ERROR: lexer.Tokenize has not returned for %v on input %q; the check cannot decide anything (non-termination belongs to C13)\n", stallLimit, f.src)
+				drive.Cleanup()
+				os.Exit(2)
+			}
+			return true
+		})
+	}
+}
+
 func implLex(src string) (res implResult) {
+	f := &flight{src: src, since: time.Now()}
+	inFlight.Store(f, struct{}{})
+	defer inFlight.Delete(f)
 	defer func() {
 		if r := recover(); r != nil {
 			res = implResult{panic: fmt.Sprint(r)}
@@ -696,6 +727,7 @@ func Run() int {
 	c := &checker{run: r, sh: &shrinker{}, total: newStats()}
 	c.deadline = r.Deadline(4*time.Minute, 25*time.Minute)
 	thorough := r.Thorough()
+	go watchdog()
 
 	spaces := buildSpaces(thorough)
 	lastComplete := []string{}
